@@ -1,7 +1,7 @@
 (* C13 — Idempotency keys give exactly-once effects (sequential executions).  Statements only; proofs in Ledger/IkProofs.v.
    The concurrent part (N racing requests sharing a key) is examined by the schedule harness, not by these theorems. *)
 From Coq Require Import List ZArith String Bool Lia.
-From LV Require Import Base.Util Ledger.Types Ledger.Core Ledger.Invariants Ledger.IkProofs.
+From LV Require Import Base.Util Ledger.Types Ledger.Core Ledger.Invariants Ledger.IkProofs Ledger.ScriptProofs.
 From LV Require Export Props.C13c.   (* concurrent part: theorems over all schedules of the interleaving model Ledger/Conc.v *)
 Import ListNotations.
 Open Scope Z_scope.
@@ -50,7 +50,36 @@ Proof.
 Qed.
 Print Assumptions C13_failed_write_keeps_key_free.
 
+(* (5) creates whose script sets metadata (set_tx_meta / set_account_meta): the fingerprint stored with the log is the
+   request AS SUBMITTED. Replaying the same request under the key is a hit returning the original log and transaction,
+   after any further history (instance of (2)) ... *)
+Theorem C13_script_replay_returns_original : forall f now s ps ts ref md amd force smd samd ik s1 lid tid h2 now' dry',
+  ik <> ""%string ->
+  step f now s (script_op ps ts ref md amd force smd samd ik false) = SR s1 (ROk lid tid false) ->
+  let s2 := run_from f s1 h2 in
+  step f now' s2 (script_op ps ts ref md amd force smd samd ik dry') = SR s2 (ROk lid tid true).
+Proof. exact script_replay_returns_original. Qed.
+Print Assumptions C13_script_replay_returns_original.
+
+(* ... whereas a request that spells out what the script computed (its metadata merged into the request's) is another input *)
+Theorem C13_script_merged_request_rejected : forall f now s ps ts ref md amd force smd samd ik s1 lid tid h2 now' dry' smd' samd',
+  ik <> ""%string -> mmerge smd md <> md ->
+  step f now s (script_op ps ts ref md amd force smd samd ik false) = SR s1 (ROk lid tid false) ->
+  let s2 := run_from f s1 h2 in
+  step f now' s2 (script_op ps ts ref (mmerge smd md) amd force smd' samd' ik dry') = SR s2 (RErr EIdempotencyInput).
+Proof. exact script_replay_merged_rejected. Qed.
+Print Assumptions C13_script_merged_request_rejected.
+
 Local Open Scope string_scope.
+Example C13_script_example :
+  let f := {| f_moves := true; f_pcev := true; f_acc_hist := false; f_tx_hist := false; f_hash := false |} in
+  let p := {| p_src := "world"; p_dst := "bank"; p_asset := "USD"; p_amt := 100 |} in
+  let o := script_op [p] None "" [("channel", "web")] [] false [("category", "refund")] [] "order-42" false in
+  let merged := script_op [p] None "" [("category", "refund"); ("channel", "web")] [] false [("category", "refund")] [] "order-42" false in
+  let s := run f [(1, o)] in
+  answer_of (step f 2 s o) = Some (ROk 1 (Some 1) true) /\ answer_of (step f 2 s merged) = Some (RErr EIdempotencyInput).
+Proof. vm_compute. split; reflexivity. Qed.
+
 (* non-vacuity: alice is funded and spends everything under key "k"; the replay would fail on its own (no funds left)
    but returns the original log 2 / transaction 2 as a hit; a different input under "k" is rejected *)
 Example C13_example :
